@@ -384,11 +384,27 @@ func (vc *VC) run() (err error) {
 		}
 		vc.reach[b] = m
 	}
+	if rb := fn.Recover; rb != nil {
+		// the recover block is entered from any point after the handler is registered
+		for _, m := range vc.reach {
+			m[rb] = true
+		}
+		if vc.reach[rb] == nil {
+			vc.reach[rb] = map[*ssa.BasicBlock]bool{}
+		}
+		vc.reach[rb][rb] = true
+	}
+	vc.privateCells = privateCells(fn)
 
 	// entry state and parameters
 	vc.entry = vc.newState()
 	st0 := vc.entry.clone(vc)
 	vc.curBlock = nil
+	vc.protectedNow, vc.deferBlock, vc.panicFrom = false, nil, nil
+	if _, ok := vc.P.spec.GhostVars["panicking"]; ok && !callsRecover(fn) {
+		// only a deferred handler can be entered while the goroutine is panicking
+		vc.assume(sx("=", vc.get(vc.entry, "G_panicking", "Iface"), "iface_nil"))
+	}
 	for _, p := range fn.Params {
 		t := vc.bindFresh(p, "true")
 		if t.Sort == "Int" {
@@ -400,9 +416,13 @@ func (vc *VC) run() (err error) {
 			vc.assume(sx("is_old", sx("sl_ref", t.S)))
 		}
 	}
-	for _, fv := range fn.FreeVars {
+	for i, fv := range fn.FreeVars {
 		t := vc.bindFresh(fv, "true")
 		vc.assume(and(sx(">", t.S, "0"), sx("is_old", t.S)))
+		// distinct captured variables are distinct objects
+		for _, other := range fn.FreeVars[:i] {
+			vc.assume(not(sx("=", t.S, vc.vals[other].S)))
+		}
 	}
 	// global axioms and type invariants of the contract file
 	envAx := &Env{vc: vc, st: vc.entry, old: vc.entry, vars: map[string]Term{}, pkg: vc.P.logPkg.Types}
@@ -549,6 +569,7 @@ func (vc *VC) run() (err error) {
 		}
 		blockR[b] = rname
 		vc.curGuard = rname
+		vc.protectedNow = vc.deferBlock != nil && b != vc.deferBlock && vc.deferBlock.Dominates(b)
 
 		li := headerLoop[b]
 		if li != nil {
@@ -591,8 +612,64 @@ func (vc *VC) run() (err error) {
 			}
 		}
 	}
+	vc.protectedNow = false
+	if vc.panicFrom != nil {
+		vc.panicPath()
+	}
 	vc.curBlock = nil
 	return nil
+}
+
+// deferHandler: the function a defer statement registers, when it is statically known.
+func deferHandler(x *ssa.Defer) *ssa.Function {
+	if c := x.Call.StaticCallee(); c != nil {
+		return c
+	}
+	if mc, ok := x.Call.Value.(*ssa.MakeClosure); ok {
+		if f, ok := mc.Fn.(*ssa.Function); ok {
+			return f
+		}
+	}
+	return nil
+}
+
+// panicPath: some instruction after the registration of the recovering handler panics, in an
+// arbitrary state: the deferred calls run (the handler against its contract), the panic must be
+// over, and the function's recover block returns the named results, which must satisfy the
+// postconditions.
+func (vc *VC) panicPath() {
+	rb := vc.fn.Recover
+	st := vc.panicFrom
+	vc.curBlock = rb
+	rname := "R_panic"
+	vc.declare(rname, "Bool")
+	vc.curGuard = rname
+	// the handler was registered
+	vc.assume(implies(rname, vc.deferGuard))
+	// captured locals that are written only before the registration keep their value
+	type kept struct{ addr, val Term }
+	var keep []kept
+	for _, a := range vc.panicStable {
+		addr := vc.val(a)
+		keep = append(keep, kept{addr, vc.load(st, addr)})
+	}
+	vc.havocAll(st, "")
+	for _, k := range keep {
+		vc.store(st, k.addr, k.val)
+	}
+	pv := vc.fresh("panicval", "Iface")
+	vc.assume(not(sx("=", pv, "iface_nil")))
+	vc.set(st, "G_panicking", "Iface", pv)
+	for i := len(st.defers) - 1; i >= 0; i-- {
+		d := st.defers[i]
+		vc.callCommon(st, nil, d.call, d.args, rname, d.pos, true)
+	}
+	st.defers = nil
+	vc.oblige("nopanic.recovered", "", vc.nopanicProps(), rname, sx("=", vc.get(st, "G_panicking", "Iface"), "iface_nil"),
+		"the deferred handler ends every panic raised after its registration", vc.fn.Pos())
+	for _, in := range rb.Instrs {
+		vc.instr(st, in, rname)
+	}
 }
 
 func (vc *VC) clauseErr(c *Clause, err error) error {
@@ -1211,6 +1288,16 @@ func (vc *VC) instr(st *State, in ssa.Instruction, guard string) {
 		}
 		cc := x.Call
 		st.defers = append(st.defers, deferred{call: &cc, args: args, pos: x.Pos()})
+		// a handler that recovers: from here on a panic runs the deferred calls and the recover block
+		if h := deferHandler(x); h != nil && vc.fn.Recover != nil {
+			if sp := vc.P.findSpec(h); sp != nil && sp.Recovers && vc.panicFrom == nil {
+				vc.protectedNow = true
+				vc.deferBlock = vc.curBlock
+				vc.panicFrom = st.clone(vc)
+				vc.panicStable = stableCaptured(x)
+				vc.deferGuard = guard
+			}
+		}
 	case *ssa.RunDefers:
 		for i := len(st.defers) - 1; i >= 0; i-- {
 			d := st.defers[i]
@@ -1693,7 +1780,12 @@ func (vc *VC) exit(st *State, results []Term, guard string, pos token.Pos) {
 
 func (vc *VC) explicitPanic(st *State, x *ssa.Panic, guard string) {
 	if !vc.hasPanicsIff {
-		vc.oblige("nopanic.explicit", vc.srcLabel(x), vc.nopanicProps(), guard, "false", "explicit panic is unreachable", x.Pos())
+		props := vc.nopanicProps()
+		if len(props) == 1 && props[0] == "-" {
+			// may_panic excuses run-time panics, not a panic statement of the function itself
+			props = vc.spec.Props
+		}
+		vc.oblige("nopanic.explicit", vc.srcLabel(x), props, guard, "false", "explicit panic is unreachable", x.Pos())
 		return
 	}
 	vc.panicExit(st, guard, x.Pos(), vc.srcLabel(x))
@@ -1724,4 +1816,126 @@ func instrIndex(in ssa.Instruction) int {
 
 func hasEmpty(m map[string]bool) bool {
 	return m[""]
+}
+
+func callsRecover(fn *ssa.Function) bool {
+	for _, b := range fn.Blocks {
+		for _, in := range b.Instrs {
+			if c, ok := in.(*ssa.Call); ok {
+				if bi, ok := c.Call.Value.(*ssa.Builtin); ok && bi.Name() == "recover" {
+					return true
+				}
+			}
+		}
+	}
+	return false
+}
+
+// stableCaptured: the local variables captured by the deferred closure that nothing can write after
+// the defer statement: their address is used only by loads, by stores that execute before the defer,
+// and by the binding of this one closure, and the closure itself does not store to them.
+func stableCaptured(d *ssa.Defer) []*ssa.Alloc {
+	mc, ok := d.Call.Value.(*ssa.MakeClosure)
+	if !ok {
+		return nil
+	}
+	h, _ := mc.Fn.(*ssa.Function)
+	var out []*ssa.Alloc
+	for i, b := range mc.Bindings {
+		a, ok := b.(*ssa.Alloc)
+		if !ok || a.Referrers() == nil {
+			continue
+		}
+		stable := true
+		for _, r := range *a.Referrers() {
+			switch x := r.(type) {
+			case *ssa.UnOp, *ssa.DebugRef:
+			case *ssa.MakeClosure:
+				if x != mc {
+					stable = false
+				}
+			case *ssa.Store:
+				if x.Addr != ssa.Value(a) {
+					stable = false // the address itself is stored somewhere
+					break
+				}
+				before := x.Block() != d.Block() && x.Block().Dominates(d.Block()) ||
+					x.Block() == d.Block() && instrIndex(x) < instrIndex(d)
+				if !before {
+					stable = false
+				}
+			default:
+				stable = false
+			}
+		}
+		// the handler must not write it either
+		if stable && h != nil && i < len(h.FreeVars) && h.FreeVars[i].Referrers() != nil {
+			for _, r := range *h.FreeVars[i].Referrers() {
+				switch x := r.(type) {
+				case *ssa.UnOp, *ssa.DebugRef:
+				case *ssa.Store:
+					stable = false
+					_ = x
+				default:
+					stable = false
+				}
+			}
+		}
+		if stable {
+			out = append(out, a)
+		}
+	}
+	return out
+}
+
+// privateCells: local variables (allocations) that only this function and the closures it calls or
+// defers itself can reach: the address is used by loads, by stores to it, and by closures whose
+// only use is a direct call, defer or go statement in this function.  A callee without contract
+// cannot change them.
+func privateCells(fn *ssa.Function) []*ssa.Alloc {
+	var out []*ssa.Alloc
+	for _, b := range fn.Blocks {
+		for _, in := range b.Instrs {
+			a, ok := in.(*ssa.Alloc)
+			if !ok || a.Referrers() == nil {
+				continue
+			}
+			private := true
+			for _, r := range *a.Referrers() {
+				switch x := r.(type) {
+				case *ssa.UnOp, *ssa.DebugRef:
+				case *ssa.Store:
+					if x.Addr != ssa.Value(a) {
+						private = false
+					}
+				case *ssa.MakeClosure:
+					if x.Referrers() == nil {
+						private = false
+						break
+					}
+					for _, cr := range *x.Referrers() {
+						switch y := cr.(type) {
+						case *ssa.Defer:
+							if y.Call.Value != ssa.Value(x) {
+								private = false
+							}
+						case *ssa.Call:
+							if y.Call.Value != ssa.Value(x) {
+								private = false
+							}
+						case *ssa.DebugRef:
+						default:
+							private = false
+						}
+					}
+				default:
+					private = false
+				}
+			}
+			if private {
+				out = append(out, a)
+			}
+		}
+	}
+	return out
 }
